@@ -102,7 +102,7 @@ func Run(dir, module, cfg string, workers, heapMB int, timeout time.Duration, ex
 	}
 	args := append([]string{"-Xss512m", fmt.Sprintf("-Xmx%dm", heapMB)}, gc...)
 	args = append(args, "-Djava.io.tmpdir="+dir,
-		"-cp", jar + ":" + deps, "tlc2.TLC", "-workers", strconv.Itoa(workers),
+		"-cp", jar+":"+deps, "tlc2.TLC", "-workers", strconv.Itoa(workers),
 		"-metadir", meta, "-noGenerateSpecTE")
 	args = append(args, extra...)
 	args = append(args, module+".tla")
